@@ -74,7 +74,7 @@ def _load_c15():
     return [C15A(), C15B(), C15C()]
 
 
-register("C15", _load_c15, {"quick": {"runs": 16000, "wall": 120},
+register("C15", _load_c15, {"quick": {"runs": 16000, "wall": 150},
                             "thorough": {"runs": 400000, "wall": 1800}})
 
 
@@ -101,6 +101,7 @@ def _work(args):
         # watchdog per run (re-armed): a hang is a harness error, a slow
         # machine is not
         faulthandler.dump_traceback_later(900, exit=True)
+        t_run = time.time()
         try:
             program, out = eng.generate(seed, run, tier)
         except HarnessError as e:
@@ -110,6 +111,9 @@ def _work(args):
             res["errors"].append(f"run {run}: {type(e).__name__} {e}\n{traceback.format_exc()}")
             continue
         res["runs"] += 1
+        dt_run = time.time() - t_run
+        if dt_run > res.get("slowest", (0,))[0]:
+            res["slowest"] = (round(dt_run, 2), eng.name, run)
         res["stats"].update(out["stats"])
         res["steps"] += len(program["steps"])
         nontriv = out["progressed"] >= 3 and out["faults"] >= 1
@@ -221,6 +225,8 @@ def run_check(prop, tier, seed, workers=None, runs=None, wall=None):
                 agg["errors"].extend(r["errors"])
                 agg["steps"] += r["steps"]
                 agg["nontrivial"] += r["nontrivial"]
+                if r.get("slowest", (0,))[0] > agg.get("slowest", (0,))[0]:
+                    agg["slowest"] = r["slowest"]
                 agg["states"].update(r["states"])
                 if len(agg["samples"]) < 4:
                     agg["samples"].extend(r["samples"][:1])
@@ -312,6 +318,8 @@ def run_check(prop, tier, seed, workers=None, runs=None, wall=None):
     write_evidence(prop, tier, seed, engines, agg, wall_s, nviol, rc)
     for ln in lines:
         print(ln)
+    if agg.get("slowest"):
+        print(f"  slowest run: {agg['slowest']}")
     print(f"[{prop} {tier}] seed={seed} runs={agg['runs']} nontrivial={agg['nontrivial']} "
           f"distinct={len(agg['digests'])} steps={agg['steps']} "
           f"violations={nviol} known={len(seen)} wall={wall_s:.1f}s exit={rc}")
